@@ -452,7 +452,8 @@ func listSentinel(p *core.Prog, r *core.Result) {
 							continue
 						}
 						fa, ok := s2.Addr.(*ssa.FieldAddr)
-						if !ok || addrKey(fa.X) == "" || addrKey(fa.X) != base {
+						// the sentinel is the list value itself or a node held by value inside it
+						if !ok || addrKey(fa.X) == "" || (addrKey(fa.X) != base && !strings.HasPrefix(addrKey(fa.X), base+".")) {
 							continue
 						}
 						fs := fa.X.Type().Underlying().(*types.Pointer).Elem().Underlying().(*types.Struct)
